@@ -1386,6 +1386,10 @@ impl SctpInner {
         if !t3_expired {
             return Ok(());
         }
+        #[cfg(rustrtc_verif)]
+        crate::verif_hooks::sctp::trace(self.local_port, || {
+            crate::verif_hooks::sctp::Ev::Mark("t3", vec![])
+        });
 
         // Record T3 fire time BEFORE backoff
         *self.last_t3_fire_time.lock() = Some(now);
@@ -1498,9 +1502,13 @@ impl SctpInner {
 
     async fn send_init(&self) -> Result<()> {
         let local_tag = random_u32();
+        #[cfg(rustrtc_verif)]
+        let local_tag = crate::verif_hooks::sctp::seed_tag(self.local_port).unwrap_or(local_tag);
         self.verification_tag.store(local_tag, Ordering::SeqCst);
 
         let initial_tsn = random_u32();
+        #[cfg(rustrtc_verif)]
+        let initial_tsn = crate::verif_hooks::sctp::seed_tsn(self.local_port).unwrap_or(initial_tsn);
         self.next_tsn.store(initial_tsn, Ordering::SeqCst);
 
         let mut init_params = BytesMut::new();
@@ -1548,6 +1556,10 @@ impl SctpInner {
 
     async fn handle_packet(&self, packet: Bytes) -> Result<()> {
         let now = Instant::now();
+        #[cfg(rustrtc_verif)]
+        crate::verif_hooks::sctp::trace(self.local_port, || {
+            crate::verif_hooks::sctp::Ev::Rx(packet.clone())
+        });
         if packet.len() < SCTP_COMMON_HEADER_SIZE {
             return Ok(());
         }
@@ -1685,6 +1697,8 @@ impl SctpInner {
 
         // Generate local tag
         let local_tag = random_u32();
+        #[cfg(rustrtc_verif)]
+        let local_tag = crate::verif_hooks::sctp::seed_tag(self.local_port).unwrap_or(local_tag);
         self.verification_tag.store(local_tag, Ordering::SeqCst);
 
         // Generate HMAC-protected state cookie
@@ -1701,6 +1715,8 @@ impl SctpInner {
         init_ack_params.put_u16(10);
         // Initial TSN
         let initial_tsn = random_u32();
+        #[cfg(rustrtc_verif)]
+        let initial_tsn = crate::verif_hooks::sctp::seed_tsn(self.local_port).unwrap_or(initial_tsn);
         self.next_tsn.store(initial_tsn, Ordering::SeqCst);
         init_ack_params.put_u32(initial_tsn);
 
@@ -2994,6 +3010,10 @@ impl SctpInner {
             }
             self.tlp_probe_sent.store(true, Ordering::Relaxed);
             self.stats_tlp_probes.fetch_add(1, Ordering::Relaxed);
+            #[cfg(rustrtc_verif)]
+            crate::verif_hooks::sctp::trace(self.local_port, || {
+                crate::verif_hooks::sctp::Ev::Mark("tlp", vec![tail_tsn as u64])
+            });
             trace!("TLP: probing tail TSN {} (transmit #{})", tail_tsn, record.transmit_count);
             self.timer_notify.notify_one();
             return true;
@@ -3105,6 +3125,10 @@ impl SctpInner {
         buf[10] = checksum_bytes[2];
         buf[11] = checksum_bytes[3];
 
+        #[cfg(rustrtc_verif)]
+        crate::verif_hooks::sctp::trace(self.local_port, || {
+            crate::verif_hooks::sctp::Ev::Tx(Bytes::copy_from_slice(&buf))
+        });
         let packet_size = buf.len();
         self.stats_bytes_sent
             .fetch_add(packet_size as u64, Ordering::Relaxed);
@@ -3209,6 +3233,13 @@ impl SctpInner {
         }
 
         self.queued_bytes.fetch_add(total_len, Ordering::Relaxed);
+        #[cfg(rustrtc_verif)]
+        crate::verif_hooks::sctp::trace(self.local_port, || {
+            crate::verif_hooks::sctp::Ev::Mark(
+                "enqueue",
+                vec![channel_id as u64, ppid as u64, total_len as u64, ssn as u64, ordered as u64],
+            )
+        });
 
         if total_len == 0 {
             // Handle empty message
@@ -3297,6 +3328,13 @@ impl SctpInner {
         let burst_constrained_cwnd = (flight_val + burst_limit).min(cwnd_val);
 
         let effective_window = burst_constrained_cwnd.min(rwnd_val);
+        #[cfg(rustrtc_verif)]
+        crate::verif_hooks::sctp::trace(self.local_port, || {
+            crate::verif_hooks::sctp::Ev::Mark(
+                "tx_window",
+                vec![cwnd_val as u64, flight_val as u64, rwnd_val as u64, burst_limit as u64, effective_window as u64],
+            )
+        });
 
         // 2. Retransmit Phase (Priority)
         {
@@ -3353,6 +3391,13 @@ impl SctpInner {
                 window_limited = !outbound.is_empty() || batch.len() >= 1000;
             }
             self.window_limited.store(window_limited, Ordering::Relaxed);
+            #[cfg(rustrtc_verif)]
+            crate::verif_hooks::sctp::trace(self.local_port, || {
+                crate::verif_hooks::sctp::Ev::Mark(
+                    "tx_new",
+                    vec![available as u64, batch.len() as u64, dequeued_bytes as u64, window_limited as u64],
+                )
+            });
             if dequeued_bytes > 0 {
                 self.queued_bytes
                     .fetch_sub(dequeued_bytes, Ordering::Relaxed);
@@ -10431,5 +10476,331 @@ impl SctpTransport {
 impl SctpTransport {
     pub fn verif_lc_set_close_reason(&self, reason: Option<String>) {
         *self.inner.close_reason.lock() = reason;
+    }
+}
+
+// ---------------------------------------------------------------------------
+// Verification hooks (compiled only with `--cfg rustrtc_verif`; add-only).
+// H1: link constructor + state snapshot; H2: pure-function wrappers.
+// ---------------------------------------------------------------------------
+#[cfg(rustrtc_verif)]
+impl SctpTransport {
+    /// H1: same construction as [`SctpTransport::new`] (the real `SctpInner` and
+    /// `run_loop`), but every outgoing SCTP packet is handed to `outgoing_packet_tx`
+    /// (a harness channel) instead of `dtls.send`. `dtls_transport` only provides the
+    /// state channel the run loop waits on (see `DtlsTransport::verif_force_state`).
+    #[allow(clippy::too_many_arguments)]
+    pub fn new_verif_link(
+        dtls_transport: Arc<DtlsTransport>,
+        incoming_data_rx: mpsc::UnboundedReceiver<Bytes>,
+        outgoing_packet_tx: mpsc::UnboundedSender<Bytes>,
+        data_channels: Arc<Mutex<Vec<Weak<DataChannel>>>>,
+        local_port: u16,
+        remote_port: u16,
+        new_data_channel_tx: Option<mpsc::UnboundedSender<Arc<DataChannel>>>,
+        is_client: bool,
+        config: &RtcConfiguration,
+    ) -> (
+        Arc<Self>,
+        impl std::future::Future<Output = ()> + Send + 'static,
+    ) {
+        let (_unused_tx, unused_rx) = mpsc::unbounded_channel::<Bytes>();
+        let (mut transport, runner) = Self::new(
+            dtls_transport,
+            unused_rx,
+            data_channels,
+            local_port,
+            remote_port,
+            new_data_channel_tx,
+            is_client,
+            config,
+        );
+        // The stock runner (never polled) owns the only other references.
+        drop(runner);
+        {
+            let t = Arc::get_mut(&mut transport).expect("fresh transport");
+            let inner = Arc::get_mut(&mut t.inner).expect("fresh inner");
+            inner.outgoing_packet_tx = outgoing_packet_tx;
+        }
+        let inner = transport.inner.clone();
+        let close_rx = transport.close_tx.clone();
+        let runner = async move {
+            let close_rx_2 = close_rx.clone();
+            tokio::select! {
+                _ = inner.run_loop(close_rx, incoming_data_rx) => {},
+                _ = close_rx_2.notified() => {}
+            }
+        };
+        (transport, runner)
+    }
+
+    pub fn verif_snapshot(&self) -> verif::Snapshot {
+        let i = &self.inner;
+        verif::Snapshot {
+            state: *i.state.lock(),
+            local_tag: i.verification_tag.load(Ordering::SeqCst),
+            remote_tag: i.remote_verification_tag.load(Ordering::SeqCst),
+            next_tsn: i.next_tsn.load(Ordering::SeqCst),
+            cumulative_tsn_ack: i.cumulative_tsn_ack.load(Ordering::SeqCst),
+            advanced_peer_ack_tsn: i.advanced_peer_ack_tsn.load(Ordering::SeqCst),
+            flight_size: i.flight_size.load(Ordering::SeqCst),
+            cwnd: i.cwnd_tx.load(Ordering::SeqCst),
+            ssthresh: i.ssthresh.load(Ordering::SeqCst),
+            peer_rwnd: i.peer_rwnd.load(Ordering::SeqCst),
+            used_rwnd: i.used_rwnd.load(Ordering::SeqCst),
+            queued_bytes: i.queued_bytes.load(Ordering::SeqCst),
+            sent_queue: i
+                .sent_queue
+                .lock()
+                .iter()
+                .map(|(t, r)| verif::VRecord::from_record(*t, r, None))
+                .collect(),
+            outbound_queue: i
+                .outbound_queue
+                .lock()
+                .iter()
+                .map(|c| (c.stream_id, c.ssn, c.flags, c.payload.len()))
+                .collect(),
+            received_queue: i.received_queue.lock().keys().cloned().collect(),
+            inbound_streams: {
+                let mut v: Vec<(u16, u16, Vec<u16>)> = i
+                    .inbound_streams
+                    .lock()
+                    .iter()
+                    .map(|(sid, s)| (*sid, s.next_ssn, s.pending.keys().cloned().collect()))
+                    .collect();
+                v.sort();
+                v
+            },
+            close_reason: i.close_reason.lock().clone(),
+        }
+    }
+
+    /// `create_data_chunk` of this association (pure in its arguments).
+    pub fn verif_create_data_chunk(
+        &self,
+        channel_id: u16,
+        ppid: u32,
+        data: &[u8],
+        ssn: u16,
+        flags: u8,
+        tsn: u32,
+    ) -> Bytes {
+        self.inner
+            .create_data_chunk(channel_id, ppid, data, ssn, flags, tsn)
+    }
+}
+
+#[cfg(rustrtc_verif)]
+pub mod verif {
+    //! H2: `pub` wrappers over the private pure functions, taking / returning plain data.
+    use super::*;
+
+    #[derive(Clone, Debug)]
+    pub struct Snapshot {
+        pub state: SctpState,
+        pub local_tag: u32,
+        pub remote_tag: u32,
+        pub next_tsn: u32,
+        pub cumulative_tsn_ack: u32,
+        pub advanced_peer_ack_tsn: u32,
+        pub flight_size: usize,
+        pub cwnd: usize,
+        pub ssthresh: usize,
+        pub peer_rwnd: u32,
+        pub used_rwnd: usize,
+        pub queued_bytes: usize,
+        pub sent_queue: Vec<VRecord>,
+        /// (stream, ssn, flags, payload length) of chunks not yet given a TSN
+        pub outbound_queue: Vec<(u16, u16, u8, usize)>,
+        pub received_queue: Vec<u32>,
+        /// (stream, next_ssn, pending ssns)
+        pub inbound_streams: Vec<(u16, u16, Vec<u16>)>,
+        pub close_reason: Option<String>,
+    }
+
+    /// Plain image of a `ChunkRecord`. Times are milliseconds relative to a base instant.
+    #[derive(Clone, Debug, PartialEq, Eq)]
+    pub struct VRecord {
+        pub tsn: u32,
+        pub len: usize,
+        pub sent_ms: u64,
+        pub transmit_count: u32,
+        pub missing_reports: u8,
+        pub abandoned: bool,
+        pub fast_retransmit: bool,
+        pub needs_retransmit: bool,
+        pub fast_retransmit_ms: Option<u64>,
+        pub in_flight: bool,
+        pub acked: bool,
+        pub stream_id: u16,
+        pub ssn: u16,
+        pub flags: u8,
+        pub max_retransmits: Option<u16>,
+        pub has_expiry: bool,
+    }
+
+    impl VRecord {
+        pub(super) fn from_record(tsn: u32, r: &ChunkRecord, base: Option<Instant>) -> Self {
+            let ms = |t: Instant| match base {
+                Some(b) => t.saturating_duration_since(b).as_millis() as u64,
+                None => 0,
+            };
+            VRecord {
+                tsn,
+                len: r.payload.len(),
+                sent_ms: ms(r.sent_time),
+                transmit_count: r.transmit_count,
+                missing_reports: r.missing_reports,
+                abandoned: r.abandoned,
+                fast_retransmit: r.fast_retransmit,
+                needs_retransmit: r.needs_retransmit,
+                fast_retransmit_ms: r.fast_retransmit_time.map(ms),
+                in_flight: r.in_flight,
+                acked: r.acked,
+                stream_id: r.stream_id,
+                ssn: r.ssn,
+                flags: r.flags,
+                max_retransmits: r.max_retransmits,
+                has_expiry: r.expiry.is_some(),
+            }
+        }
+        fn to_record(&self, base: Instant) -> ChunkRecord {
+            ChunkRecord {
+                payload: Bytes::from(vec![0u8; self.len]),
+                sent_time: base + Duration::from_millis(self.sent_ms),
+                transmit_count: self.transmit_count,
+                missing_reports: self.missing_reports,
+                abandoned: self.abandoned,
+                fast_retransmit: self.fast_retransmit,
+                needs_retransmit: self.needs_retransmit,
+                fast_retransmit_time: self
+                    .fast_retransmit_ms
+                    .map(|m| base + Duration::from_millis(m)),
+                in_flight: self.in_flight,
+                acked: self.acked,
+                stream_id: self.stream_id,
+                ssn: self.ssn,
+                flags: self.flags,
+                max_retransmits: self.max_retransmits,
+                expiry: if self.has_expiry {
+                    Some(base + Duration::from_secs(3600))
+                } else {
+                    None
+                },
+            }
+        }
+    }
+
+    #[derive(Clone, Debug, PartialEq)]
+    pub struct VOutcome {
+        pub flight_reduction: usize,
+        pub bytes_acked_by_cum_tsn: usize,
+        pub bytes_acked_by_gap: usize,
+        /// microseconds
+        pub rtt_samples_us: Vec<u64>,
+        /// (tsn, payload length)
+        pub retransmit: Vec<(u32, usize)>,
+        pub head_moved: bool,
+        pub max_reported: u32,
+    }
+
+    /// `apply_sack_to_sent_queue` on a queue given as records (inserted into a `BTreeMap`
+    /// by TSN, later duplicates overwrite); returns the queue afterwards in map order.
+    pub fn apply_sack(
+        records: &[VRecord],
+        cumulative_tsn_ack: u32,
+        gap_blocks: &[(u16, u16)],
+        now_ms: u64,
+        count_missing_reports: bool,
+        max_tsn_retransmits: u32,
+    ) -> (Vec<VRecord>, VOutcome) {
+        let base = Instant::now();
+        let mut q: BTreeMap<u32, ChunkRecord> = BTreeMap::new();
+        for r in records {
+            q.insert(r.tsn, r.to_record(base));
+        }
+        let o = apply_sack_to_sent_queue(
+            &mut q,
+            cumulative_tsn_ack,
+            gap_blocks,
+            base + Duration::from_millis(now_ms),
+            count_missing_reports,
+            max_tsn_retransmits,
+        );
+        let after = q
+            .iter()
+            .map(|(t, r)| VRecord::from_record(*t, r, Some(base)))
+            .collect();
+        (
+            after,
+            VOutcome {
+                flight_reduction: o.flight_reduction,
+                bytes_acked_by_cum_tsn: o.bytes_acked_by_cum_tsn,
+                bytes_acked_by_gap: o.bytes_acked_by_gap,
+                rtt_samples_us: o
+                    .rtt_samples
+                    .iter()
+                    .map(|s| (s * 1_000_000.0).round() as u64)
+                    .collect(),
+                retransmit: o.retransmit.iter().map(|(t, p)| (*t, p.len())).collect(),
+                head_moved: o.head_moved,
+                max_reported: o.max_reported,
+            },
+        )
+    }
+
+    /// `build_gap_ack_blocks_from_map` for a receive map holding exactly these TSNs.
+    pub fn gap_blocks(held: &[u32], cumulative_tsn_ack: u32) -> Vec<(u16, u16)> {
+        let mut m: BTreeMap<u32, (u8, Bytes)> = BTreeMap::new();
+        for t in held {
+            m.insert(*t, (0, Bytes::new()));
+        }
+        build_gap_ack_blocks_from_map(&m, cumulative_tsn_ack)
+    }
+
+    /// The per-stream ordered-delivery resequencer.
+    pub struct VInboundStream(InboundStream);
+    impl Default for VInboundStream {
+        fn default() -> Self {
+            Self::new()
+        }
+    }
+    impl VInboundStream {
+        pub fn new() -> Self {
+            VInboundStream(InboundStream::new())
+        }
+        pub fn enqueue(&mut self, ssn: u16, msg: Bytes) -> Vec<Bytes> {
+            self.0.enqueue(ssn, msg)
+        }
+        pub fn drain_ready(&mut self) -> Vec<Bytes> {
+            self.0.drain_ready()
+        }
+        pub fn advance_ssn_to(&mut self, ssn: u16) {
+            self.0.advance_ssn_to(ssn)
+        }
+        pub fn next_ssn(&self) -> u16 {
+            self.0.next_ssn
+        }
+        pub fn pending(&self) -> Vec<(u16, Bytes)> {
+            self.0.pending.iter().map(|(k, v)| (*k, v.clone())).collect()
+        }
+    }
+
+    pub fn tsn_gt(a: u32, b: u32) -> bool {
+        super::tsn_gt(a, b)
+    }
+    pub fn ssn_gt(a: u16, b: u16) -> bool {
+        super::ssn_gt(a, b)
+    }
+    pub fn crc32c(data: &[u8]) -> u32 {
+        sctp_crc32c(data)
+    }
+    pub fn crc32c_append(crc: u32, data: &[u8]) -> u32 {
+        sctp_crc32c_append(crc, data)
+    }
+    /// `should_abandon` for a record without an expiry time.
+    pub fn should_abandon(r: &VRecord) -> bool {
+        SctpInner::should_abandon(&r.to_record(Instant::now()))
     }
 }
